@@ -1,6 +1,7 @@
 /- line protocol for the `lockup` engine.  Times/durations: raw nanoseconds; end time 0 = not unlocking;
 coins `denom:amount,denom:amount` (`-` = empty); lock id lists ascending, space separated. -/
 import OsmoVerif.Model.Lockup
+import OsmoVerif.Model.LockupGenesis
 namespace OsmoVerif.Lockup
 
 def initLockup : State := {}
@@ -98,6 +99,12 @@ def stepLockup (st : State) (op : String) (args : List String) : State × String
     match t.toInt?, id.toNat?, parseCoins c with
     | some t, some id, some c => resOk' (msgForceUnlock t st o id c) st
     | _, _, _ => (st, "bad-op")
+  -- real ExportGenesis, lockup store wiped, real InitGenesis (Model/LockupGenesis.lean)
+  | "exportimport", [] =>
+    match exportImport st with
+    | none => (st, "panic")
+    | some (s', _) => (s', "ok")
+  | "params", [] => (st, "ok" ++ String.join (st.forceAllowed.map fun a => " " ++ a))
   -- queries
   | "modbal", [dn] => (st, s!"ok {aget st.modBal dn}")
   | "bal", [o, dn] => (st, s!"ok {aget st.bal (o, dn)}")
